@@ -38,7 +38,7 @@ PROFILES: List[Tuple[str, float, Dict[str, Any]]] = [
                           nested=0.0, own_all=0.0, alias=0.05, max_modules=10, prefer_local=0.8)),
     ('multi',     1, dict(reexport=0.7, multi_reexport=True, roots=(1, 3))),
     ('zope',      1, dict(reexport=0.3, zope=1.0, roots=(1, 2))),
-    ('docassign', 1, dict(reexport=0.3, docassign=0.7, docassign_modules=True, roots=(1, 2))),
+    ('docassign', 3, dict(reexport=0.3, docassign=0.7, docassign_modules=True, roots=(1, 2))),
     ('dups',      1, dict(reexport=0.4, dup=0.5, dup_mixed=True, roots=(1, 2))),
     ('shadow',    2, dict(reexport=0.7, shadow_import=0.7, rebind_same=0.4, roots=(1, 3), consumer_roots=True)),
     ('attrs',     4, dict(reexport=0.4, attr_pool=0.9, method_pool=True, defs=(2, 4), roots=(1, 2), nested=0.0, star=0.05)),
